@@ -123,6 +123,12 @@ type sys struct {
 	before map[string]disc
 }
 
+// batched: every write asks for fsync on a store that is stopping, which is the
+// one combination that takes Volume.writeNeedle2's asyncRequest path (worker
+// goroutine, doWriteRequest without syncWrite).  Set by search/replay before
+// any sys is built.
+var batched bool
+
 func newSys(kind storage.NeedleMapKind) *sys {
 	return &sys{env: volkit.NewEnv("c01", kind)}
 }
@@ -164,7 +170,11 @@ func (s *sys) apply(e Event, check bool) []viol {
 	switch e.Op {
 	case "W":
 		b := blobOf(e)
-		unchanged, err := s.env.Write(s.vid, e.Key, cookies[e.Cookie], b)
+		write := s.env.Write
+		if batched {
+			write = s.env.WriteBatched
+		}
+		unchanged, err := write(s.vid, e.Key, cookies[e.Cookie], b)
 		r := s.ref[e.Key]
 		switch {
 		case err != nil:
@@ -417,6 +427,10 @@ func kindName(k storage.NeedleMapKind) string {
 }
 
 func kindOf(s string) storage.NeedleMapKind {
+	if strings.HasSuffix(s, "-batched") {
+		batched = true
+		s = strings.TrimSuffix(s, "-batched")
+	}
 	if s == "memory" {
 		return storage.NeedleMapInMemory
 	}
@@ -485,7 +499,12 @@ func search(r *mc.Run, label string, kind storage.NeedleMapKind, payloads, metas
 	const workers = 16
 	p := newPool(kind, workers)
 	defer p.close()
+	batched = strings.HasSuffix(label, "-batched")
+	defer func() { batched = false }()
 	kn := kindName(kind) // in witnesses and case classes
+	if batched {
+		kn += "-batched"
+	}
 	t0 := time.Now()
 
 	seen := map[string]struct{}{}
@@ -632,6 +651,8 @@ func run(r *mc.Run) {
 		search(r, "leveldb", storage.NeedleMapLevelDb, []int{2, 0}, []int{0, 2}, 1, 2, 99, 0)
 		// overwrites of equal length and equal cookie with different bytes (isFileUnchanged must compare content)
 		search(r, "memory-samelen", storage.NeedleMapInMemory, []int{2, 3}, []int{0}, 2, 3, 99, 0)
+		// the batched write path (fsync requested while the store is stopping)
+		search(r, "memory-batched", storage.NeedleMapInMemory, []int{2, 0}, []int{0}, 2, 3, 99, 0)
 	} else {
 		// the quick search one level deeper, then the full alphabet at the quick depth
 		search(r, "memory", storage.NeedleMapInMemory, []int{2, 0}, []int{0, 2}, 2, 4, 99, 0)
@@ -639,6 +660,7 @@ func run(r *mc.Run) {
 		search(r, "leveldb", storage.NeedleMapLevelDb, []int{2, 0}, []int{0, 2}, 2, 3, 99, 0)
 		search(r, "memory-samelen", storage.NeedleMapInMemory, []int{2, 3}, []int{0, 2}, 2, 4, 99, 0)
 		search(r, "leveldb-samelen", storage.NeedleMapLevelDb, []int{2, 3}, []int{0}, 2, 3, 99, 0)
+		search(r, "memory-batched", storage.NeedleMapInMemory, []int{2, 0, 3}, []int{0, 2}, 2, 3, 99, 0)
 	}
 	r.Sample("history", witness{Kind: "memory", Path: []Event{{Op: "W", Key: 1, Cookie: 0, Payload: 2, Meta: 2}, {Op: "D", Key: 1, Cookie: 1}, {Op: "REOPEN"}}})
 }
